@@ -9,10 +9,15 @@ import regexes as R, grammars as GM, c01, xsds as X, jsonschemas as J, c13_probe
 
 
 def gen_action(rng):
-    k = rng.choice(["json", "json", "normalize", "regex", "grammar", "xml"])
+    k = rng.choice(["json", "json", "normalize", "regex", "grammar", "xml", "xml", "xml"])
     if k in ("json", "normalize"):
         while True:
             d = c01.gen_doc(rng)
+            if isinstance(d, dict) and rng.random() < 0.4:
+                # references and boolean schemas directly inside root-level combinators
+                defs = d.setdefault("$defs", {})
+                defs.setdefault("R0", {"type": "string"})
+                d[rng.choice(["allOf", "anyOf"])] = [rng.choice([{"$ref": "#/$defs/R0"}, True, {"type": "number"}]) for _ in range(rng.choice([1, 2]))]
             if isinstance(d, dict) and J.metaschema_ok(d):
                 return [k, d]
     if k == "regex":
@@ -77,6 +82,10 @@ def run(pid, tier):
         ck.cov["traces_validated_against_impl"] += 1
         if not a["unchanged"] or not b["unchanged"]:
             ck.violation("input-modified:" + job["probe"][0], "the caller's %s input is modified by processing it" % job["probe"][0], {"job": job})
+        for i in a.get("modified", []):
+            act = job["history"][i]
+            ck.violation("input-modified:" + act[0], "the caller's %s input is modified by processing it" % act[0],
+                         {"job": {"history": [], "probe": act[:2], "seed": job["seed"]}})
         if any(isinstance(o, list) and len(o) > 2 for o in a["obs"] + b["obs"]):
             ck.violation("re-execution-differs:" + job["probe"][0], "executing the same path twice gives different samples", {"job": job})
         if a["obs"] != b["obs"]:
